@@ -15,6 +15,7 @@ import (
 	"go/constant"
 	"go/token"
 	"go/types"
+	"os"
 	"sort"
 	"strings"
 
@@ -1337,7 +1338,11 @@ func (ff *FuncFacts) term0(e ast.Expr) *Term {
 		if sel, ok := info.Selections[x]; ok {
 			switch sel.Kind() {
 			case types.FieldVal:
-				b := ff.term(x.X)
+				recv := x.X
+				if u, isU := unparen(recv).(*ast.UnaryExpr); isU && u.Op == token.AND {
+					recv = u.X // (&v).f is v.f
+				}
+				b := ff.term(recv)
 				if b == nil {
 					return nil
 				}
@@ -3446,4 +3451,210 @@ var pureStdlib = map[string]bool{
 	"strings.Index": true, "strings.IndexByte": true, "strings.LastIndex": true, "strings.HasPrefix": true, "strings.HasSuffix": true,
 	"strings.TrimLeft": true, "strings.TrimSpace": true, "strings.TrimPrefix": true, "strings.TrimSuffix": true,
 	"path.Clean": true, "path/filepath.Clean": true,
+}
+
+// AtSplit returns states one of which holds immediately before n on every
+// execution reaching n: the ways of entering n's block are followed backwards
+// over at most depth predecessor edges and each is transferred forward again
+// separately, so that facts established on only some of the joining paths
+// (`if a || b`, `case a, b:`, a condition named by a boolean local) are seen
+// per path instead of being lost in the meet.  Beyond depth, and when the
+// number of paths exceeds the cap, the block-entry state of the dataflow
+// fixpoint (which holds on every path) is used.
+func (ff *FuncFacts) AtSplit(n ast.Node, depth int) []*State {
+	b, _ := ff.blockOf(n)
+	if b == nil {
+		return nil
+	}
+	preds := map[*cfg.Block][][2]int{}
+	for _, blk := range ff.graph.Blocks {
+		if _, ok := ff.blockIn[blk]; !ok {
+			continue
+		}
+		for i, s := range blk.Succs {
+			preds[s] = append(preds[s], [2]int{int(blk.Index), i})
+		}
+	}
+	budget := 256
+	var entry func(blk *cfg.Block, d int) []*State
+	entry = func(blk *cfg.Block, d int) []*State {
+		ps := preds[blk]
+		if d == 0 || len(ps) == 0 || blk.Index == 0 || budget <= 0 {
+			return []*State{ff.blockIn[blk]}
+		}
+		var out []*State
+		for _, pe := range ps {
+			pb := ff.graph.Blocks[pe[0]]
+			dd := d - 1
+			if len(ps) == 1 {
+				dd = d // a straight edge costs nothing
+				if len(preds[pb]) == 0 {
+					dd = 0
+				}
+			}
+			for _, s := range entry(pb, dd) {
+				for _, o := range ff.edgeStates(pb, s, pe[1]) {
+					budget--
+					if o == nil || contradictory(o) {
+						continue // this edge cannot be taken on that path
+					}
+					out = append(out, o)
+				}
+			}
+		}
+		if budget <= 0 {
+			return []*State{ff.blockIn[blk]}
+		}
+		return out
+	}
+	var res []*State
+	savedAt, savedAfter := ff.at, ff.after
+	defer func() { ff.at, ff.after = savedAt, savedAfter }()
+	for _, s := range entry(b, depth) {
+		ff.at, ff.after = map[ast.Node]*State{}, map[ast.Node]*State{}
+		ff.transfer(b, s, true)
+		if st, ok := ff.at[n]; ok {
+			res = append(res, st)
+		} else {
+			ff.at, ff.after = savedAt, savedAfter
+			st, _ := ff.At(n)
+			return []*State{st}
+		}
+	}
+	if budget <= 0 {
+		ff.at, ff.after = savedAt, savedAfter
+		st, _ := ff.At(n)
+		return []*State{st}
+	}
+	return res
+}
+
+// HoldsSomeAlt reports whether on every path to n all the facts of one of
+// the alternatives hold (the alternative may differ from path to path), and
+// the names of the alternatives used.
+func (ff *FuncFacts) HoldsSomeAlt(n ast.Node, alts [][]*Fact) (bool, []int) {
+	try := func(states []*State) (bool, []int) {
+		used := map[int]bool{}
+		if len(states) == 0 {
+			return false, nil
+		}
+		for _, st := range states {
+			found := -1
+			for i, a := range alts {
+				all := st != nil
+				for _, f := range a {
+					if !all || !ff.Entails(st, f) {
+						all = false
+					}
+				}
+				if all {
+					found = i
+					break
+				}
+			}
+			if found < 0 {
+				if os.Getenv("GALINT_DEBUG_SPLIT") != "" {
+					fmt.Fprintf(os.Stderr, "split: at %s no alternative holds in %v\n", ff.eng.p.PosStr(n.Pos()), st)
+				}
+				return false, nil
+			}
+			used[found] = true
+		}
+		var u []int
+		for i := range alts {
+			if used[i] {
+				u = append(u, i)
+			}
+		}
+		return true, u
+	}
+	st, _ := ff.At(n)
+	if ok, u := try([]*State{st}); ok {
+		return true, u
+	}
+	for _, d := range []int{2, 4} {
+		if ok, u := try(ff.AtSplit(n, d)); ok {
+			return true, u
+		}
+	}
+	return false, nil
+}
+
+// Entails: the fact is in the state, or follows from the state's order facts
+// by linear reasoning over the integers (unsigned-typed terms are >= 0, and
+// an unsigned x != 0 is x >= 1).  Values are treated as mathematical
+// integers: use only for facts over variables and fields compared as they
+// are, not for terms whose arithmetic can wrap.
+func (ff *FuncFacts) Entails(st *State, f *Fact) bool {
+	if st == nil || f == nil {
+		return false
+	}
+	if st.HasFact(f) {
+		return true
+	}
+	base := ff.nonNeg()
+	nn := func(a string, t *Term) bool {
+		if base(a, t) {
+			return true
+		}
+		if t != nil && (t.K == 'v' || t.K == 'f') && t.Obj != nil {
+			if bt, ok := t.Obj.Type().Underlying().(*types.Basic); ok && bt.Info()&types.IsUnsigned != 0 {
+				return true
+			}
+		}
+		return false
+	}
+	ineqs := stateIneqs(st)
+	for _, g := range st.m {
+		if g.Op == "eq" && !g.Pos && g.B != nil {
+			for _, pr := range [][2]*Term{{g.A, g.B}, {g.B, g.A}} {
+				if pr[0].K == 'c' && pr[0].Name == "0" && nn(pr[1].String(), pr[1]) {
+					l := newLin()
+					l.add(linOf(pr[1]), 1)
+					l.k--
+					ineqs = append(ineqs, l)
+				}
+			}
+		}
+	}
+	switch f.Op {
+	case "lt":
+		return impliesFact(ineqs, f, nn)
+	case "eq":
+		if f.B == nil {
+			return false
+		}
+		lt1, lt2 := mkFact(true, "lt", f.A, f.B), mkFact(true, "lt", f.B, f.A)
+		if f.Pos {
+			return impliesFact(ineqs, complement(lt1), nn) && impliesFact(ineqs, complement(lt2), nn)
+		}
+		return impliesFact(ineqs, lt1, nn) || impliesFact(ineqs, lt2, nn)
+	}
+	return false
+}
+
+// edgeStates: the states with which successor edge i of block b can be taken
+// from entry state st; the outcomes of a short-circuit condition are kept
+// apart (a || b true: a, or not-a and b).
+func (ff *FuncFacts) edgeStates(b *cfg.Block, st *State, i int) []*State {
+	outs := ff.transfer(b, st, false)
+	if outs[i] == nil {
+		return nil
+	}
+	cond := ff.condOf(b)
+	if cond == nil || i > 1 {
+		return []*State{outs[i]}
+	}
+	pre := st
+	if b.Kind == cfg.KindRangeBody {
+		return []*State{outs[i]}
+	}
+	for _, n := range b.Nodes {
+		pre = ff.node(n, pre, false)
+	}
+	vs := ff.edgeVariants(pre, cond, i == 0)
+	if len(vs) <= 1 {
+		return []*State{outs[i]}
+	}
+	return vs
 }
